@@ -481,7 +481,7 @@ int mutex_destroy(const void *m) {
 static void lock_inner(const void *m) {
     for (;;) {
         MutexState &s = mstate(m, "mutex_lock");
-        if (s.owner == -1) { s.owner = R->cur; hb_acquire(s.vc); return; }
+        if (s.owner == -1) { s.owner = R->cur; hb_acquire(s.vc); if (R->on_mutex_acquired) R->on_mutex_acquired(R->cur, m); return; }
         if (s.owner == R->cur) violation("C06", "mutex-relock", "thread %s locks a mutex it already holds", T().name.c_str());
         block(Thread::W_MUTEX, m);
     }
